@@ -16,9 +16,11 @@ from engine.universe import D1ALGO, scratch_root
 ALGOS = ["MD5", "SHA-1", "SHA-256", "SHA-384", "SHA-512"]
 HEXLEN = {"MD5": 32, "SHA-1": 40, "SHA-256": 64, "SHA-384": 96, "SHA-512": 128}
 NS = "https://ns.dataone.org/service/types/v2.0#SystemMetadata"
+# metadata namespaces: the DataONE one and strings that are not plain YAML scalars (hashstore.yaml must give them back)
+NSLIST = [NS, "2.0", "sysmeta #v2", "eml: 2.2.0", "yes", "*v2 & [x] {y}: 'q' \"r\""]
 PIDS = ["a", "ab", "doi:10.18739/A2901ZH2M", "jtao.1700.1", "ü中\U0001F600"]
 FORMATS = [None, "c", "http://ns/other#fmt"]
-CONTENTS = [b"x", b"0123456789ab", b""]
+CONTENTS = [C_ONE, C_MULTI, b""]
 
 
 # ---------------------------------------------------------------- independent implementation of the README layout
@@ -65,13 +67,16 @@ def script_for():
             ("obj", "<PATH-OF-SOURCE-0>", b"path-shaped pid"), ("meta", "<PATH-OF-SOURCE-0>", "c", b"<p/>")]
 
 
-DV, WV, AV = z3.Int("depth"), z3.Int("width"), z3.Int("algo")
+DV, WV, AV, NSV = z3.Int("depth"), z3.Int("width"), z3.Int("algo"), z3.Int("namespace")
 
 
 def run_config(ps, M, shim, native_root=None, enc=None):
     depth = ps.choose(DV, 1, 7)
     width = ps.choose(WV, 1, 5)
     algo = ALGOS[ps.choose(AV, 0, len(ALGOS))]
+    # the namespace varies along a diagonal of the configuration space (it does not interact with the sharding)
+    ps.constrain(z3.And(NSV >= 0, NSV < len(NSLIST), NSV == (DV + WV + AV) % len(NSLIST)))
+    ns = NSLIST[ps.choose(NSV, 0, len(NSLIST))]
     script = script_for()
     if native_root is None:
         F = symfs.FS(symfs.ModelBackend())
@@ -95,8 +100,14 @@ def run_config(ps, M, shim, native_root=None, enc=None):
     d_arg, w_arg = depth, width
     if enc == "str":
         d_arg, w_arg = str(depth), str(width)
-    s = M.FileHashStore(dict(store_path=root, store_depth=d_arg, store_width=w_arg, store_algorithm=algo,
-                             store_metadata_namespace=NS))
+    try:
+        s = M.FileHashStore(dict(store_path=root, store_depth=d_arg, store_width=w_arg, store_algorithm=algo,
+                                 store_metadata_namespace=ns))
+    except symfs.Crash:
+        raise
+    except Exception as e:   # noqa
+        return dict(depth=depth, width=width, algo=algo, files=0, ns=ns,
+                    bad=[("store-creation-failed", "%s: %s" % (type(e).__name__, str(e)[:160].replace("\n", " ")))])
     for n, op in enumerate(script):
         try:
             if op[0] == "obj":
@@ -114,7 +125,7 @@ def run_config(ps, M, shim, native_root=None, enc=None):
     else:
         tree = {k[len("/s") + 1:]: v for k, v in symfs.RealBackend(native_root).snapshot("/s").items()}
     conf = tree.pop("hashstore.yaml", None)
-    exp = expected_tree(depth, width, algo, NS, script)
+    exp = expected_tree(depth, width, algo, ns, script)
     if tree != exp:
         extra = sorted(set(tree) - set(exp))[:3]
         missing = sorted(set(exp) - set(tree))[:3]
@@ -123,14 +134,26 @@ def run_config(ps, M, shim, native_root=None, enc=None):
     if conf is None:
         bad.append(("hashstore.yaml-missing", ""))
     else:
-        y = yaml.safe_load(conf.decode("utf-8"))
-        want = dict(store_depth=depth, store_width=width, store_algorithm=algo, store_metadata_namespace=NS)
+        try:
+            y = yaml.safe_load(conf.decode("utf-8"))
+        except Exception as e:   # noqa
+            y = None
+            bad.append(("hashstore.yaml-not-readable-as-yaml", type(e).__name__))
+        want = dict(store_depth=depth, store_width=width, store_algorithm=algo, store_metadata_namespace=ns)
         for k, v in want.items():
             if not isinstance(y, dict) or y.get(k) != v or type(y.get(k)) is not type(v):
                 bad.append(("hashstore.yaml-key-wrong", k, None if not isinstance(y, dict) else y.get(k)))
         if isinstance(y, dict) and y.get("store_default_algo_list") != ALGOS:
             bad.append(("hashstore.yaml-key-wrong", "store_default_algo_list", y.get("store_default_algo_list")))
-    return dict(depth=depth, width=width, algo=algo, bad=bad, files=len(tree))
+    # the store opens again under the properties it was created with
+    try:
+        M.FileHashStore(dict(store_path=root, store_depth=depth, store_width=width, store_algorithm=algo,
+                             store_metadata_namespace=ns))
+    except symfs.Crash:
+        raise
+    except Exception as e:   # noqa
+        bad.append(("reopening-with-the-creating-properties-refused", "%s: %s" % (type(e).__name__, str(e)[:120])))
+    return dict(depth=depth, width=width, algo=algo, bad=bad, files=len(tree), ns=ns)
 
 
 def e2(run, tier):
@@ -264,7 +287,7 @@ def main(tier, replay_payload=None):
                                                    "FileHashStore._update_refs_file"]):
         run.functions.append(f)
     run.bounds = dict(depth="1..6", width="1..4", algorithms=ALGOS, script=[str(o[:3]) for o in script_for()],
-                      E1_digest_lengths=[32, 40, 64, 96, 128], pids=PIDS)
+                      E1_digest_lengths=[32, 40, 64, 96, 128], pids=PIDS, namespaces=NSLIST)
     run.explanation = ("E1: for symbolic depth, width and digest string (each real digest length) CrossHair confirms "
                        "over all paths that _shard yields depth tokens of width characters plus the remainder whose "
                        "concatenation is the digest, and that the three path builders equal an independent "
